@@ -5,7 +5,7 @@ from fractions import Fraction
 import vlib, fock
 
 CLAIM = {
- "text": "Proof (Lean 4), partial: the solver's bookkeeping is modelled as a state machine over (target operator, saved operator, parameter vector, energy log) whose operations are energy evaluation, symmetry-expectation request (save / swap / evaluate / restore, with the failure branches of the real code) and parameter update; proved for every operation history: the target operator after any history is the one the solver was built with, every energy reported equals the evaluation of that operator on the circuit for the requested parameters plus deflation_coeff times the sum of the overlap probabilities (fold over any number of deflation circuits), and a convex combination of eigenvalues is never below the smallest one (the variational bound in the eigenbasis, over any ordered field). NOT proved in Lean: that the backend evaluates <psi|H|psi> (C01/C02 correspondence) and the encodings (C03); these are tied by the numerical oracle, which for random parameter vectors compares energy_estimation, deflated energies and operator_expectation of N, S_z, S^2 with an independent numpy state-vector run of the solver's circuit and dense operator matrices, over built-in ansaetze, encodings, orderings, reference-state overrides, projective and deflation circuits.",
+ "text": "Proof (Lean 4), partial: the solver's bookkeeping is modelled as a state machine over (target operator, saved operator, parameter vector, energy log) whose operations are energy evaluation, symmetry-expectation request (save / swap / evaluate / restore, with the failure branches of the real code) and parameter update; proved for every operation history: the target operator after any history is the one the solver was built with, every energy reported equals the evaluation of that operator on the circuit for the requested parameters plus deflation_coeff times the sum of the overlap probabilities (fold over any number of deflation circuits), and a convex combination of eigenvalues is never below the smallest one (the variational bound in the eigenbasis, over any ordered field). NOT proved in Lean: that the backend evaluates <psi|H|psi> (C01/C02 correspondence) and the encodings (C03); these are tied by the numerical oracle, which for random parameter vectors compares energy_estimation, deflated energies and operator_expectation of N, S_z, S^2 with an independent numpy state-vector run of the solver's circuit and dense operator matrices, over built-in ansaetze, encodings, orderings, reference-state overrides, projective and deflation circuits. State between solver OBJECTS: a differently configured solver (shots, noise model, penalty) is built before the first solver of every run and before 15% of the others; the backend options every solver ends up with are compared with the option-dictionary model of C12 (per-instance defaults, theorem fresh_history_independent: independent of the solvers built before), the defaults literal being read from VQESolver.__init__ on every run.",
  "note": "Trusted: Lean kernel + standard axioms; numpy (oracle); PySCF integrals; openfermion operator containers.",
  "technique": "Lean 4 state-machine invariant (operator restored, energy formula, deflation fold, variational bound) + independent state-vector/dense-matrix oracle over random parameter vectors and solver configurations"}
 
@@ -107,8 +107,42 @@ def build_solver(cfg, rng, extra=None):
                       {**opts, "backend_options": {"target": "cirq", "n_shots": 13, "noise_model": nm}})
             DECOYS[0] += 1
         s = VQESolver(opts)
+        # the option-dictionary model (Defaults.afterHistoryFresh; theorem fresh_history_independent): the backend options of
+        # this solver are its own options over the defaults written in __init__, whatever solvers were built before
+        ctx_ = CTX[0]
+        if ctx_ is not None:
+            dflt = backend_defaults()
+            given = opts.get("backend_options") or {}
+            enc = lambda d: [[k, "set" if (k == "noise_model" and v is not None) else v] for k, v in d.items()]
+            jd = ctx_.model.ask({"op": "defaults_history", "defaults": enc(dflt), "opts": enc(given),
+                                 "history": [enc({"target": "cirq", "n_shots": 13, "noise_model": "set"})] * DECOYS[0]})
+            if jd.get("effective") is not None:
+                import json as _json
+                eff = {k: _json.loads(v) for k, v in jd["effective"]}
+                real = {k: ("set" if (k == "noise_model" and v is not None) else v) for k, v in s.backend_options.items()}
+                ctx_.count("backend-options-vs-model")
+                if eff != real:
+                    ctx_.mismatch(f"backend options of a solver built after {DECOYS[0]} differently configured solvers: {real}, per-instance defaults give {eff}",
+                                  {"kind": "backend_options", "given": enc(given), "decoys": DECOYS[0]}, eff, real)
         s.build()
     return s, mol
+
+
+CTX = [None]
+
+
+def backend_defaults():
+    """the defaults dictionary literal of VQESolver.__init__, read from the source on every run"""
+    import ast, inspect, textwrap
+    from tangelo.algorithms.variational import VQESolver
+    tree = ast.parse(textwrap.dedent(inspect.getsource(VQESolver.__init__)))
+    for node in ast.walk(tree):
+        if isinstance(node, ast.Assign) and any(isinstance(t, ast.Name) and t.id == "default_backend_options" for t in node.targets):
+            try:
+                return ast.literal_eval(node.value)
+            except Exception:
+                break
+    return {"target": None, "n_shots": None, "noise_model": None}
 
 
 DECOYS = [0]
@@ -510,6 +544,8 @@ def machine_case(ctx, rng):
 def run(ctx):
     rng = ctx.rng
     ok = True
+    CTX[0] = ctx
+    DECOYS[0] = 0
     cfgs = [c for c in CONFIGS if not c.get("heavy")] if ctx.quick else list(CONFIGS)
     order = list(cfgs)
     rng.shuffle(order)
